@@ -213,12 +213,12 @@ func superCallInStaticInit(p *jsref.Program) bool {
 	return found
 }
 
-// Repair: `__superGet(C, R, k).call(this, …)` where the receiver argument R is an identifier (a static
-// initialiser moved out of its class: R is the class) becomes `.call(R, …)`.
+// Repair: `__superGet(C, R, k).call(this, …)` (tagged template: `.bind(this)`) where the receiver argument
+// R is an identifier (a static initialiser moved out of its class: R is the class) becomes `.call(R, …)`.
 func repairSuperCallReceiver(out string, po *jsref.Program) (string, int) {
 	var edits []edit
 	jsutil.Walk(po.Body, func(n *jsref.Node) {
-		if n.Type != jsref.NCall || n.A == nil || n.A.Type != jsref.NMember || n.A.Name != "call" || len(n.List) == 0 {
+		if n.Type != jsref.NCall || n.A == nil || n.A.Type != jsref.NMember || (n.A.Name != "call" && n.A.Name != "bind") || len(n.List) == 0 {
 			return
 		}
 		inner := n.A.A
@@ -318,42 +318,55 @@ func repairRestKeyReread(out string, po *jsref.Program) (string, int) {
 	if strings.Contains(out, "_rk") {
 		return out, 0
 	}
-	type keyNode struct {
-		name       string
-		start, end int // the key expression inside the brackets
-	}
-	var keys []keyNode
-	var calls []*jsref.Node
+	// object patterns by the identifier they are assigned from: `{…} = _a` / declarator `{…} = _a`
+	patternsOf := map[string][]*jsref.Node{}
+	alias := map[string]string{} // `_e = _a`: after a split esbuild re-captures the same source object
+	var rests []*jsref.Node
 	jsutil.Walk(po.Body, func(n *jsref.Node) {
-		if n.Type == jsref.NProperty && n.Has(jsref.FlagComputed) && n.A != nil && n.A.Type == jsref.NIdent {
-			keys = append(keys, keyNode{n.A.Name, n.A.Start, n.A.End})
+		if (n.Type == jsref.NAssign && n.Name == "=" || n.Type == jsref.NDeclarator) && n.A != nil && n.A.Type == jsref.NIdent && n.B != nil && n.B.Type == jsref.NIdent {
+			alias[n.A.Name] = n.B.Name
 		}
-		if n.Type == jsref.NCall && n.A != nil && n.A.Type == jsref.NIdent && n.A.Name == "__restKey" && len(n.List) == 1 && n.List[0] != nil && n.List[0].Type == jsref.NIdent {
-			calls = append(calls, n)
+		if (n.Type == jsref.NAssign && n.Name == "=" || n.Type == jsref.NDeclarator) && n.A != nil && n.A.Type == jsref.NObject && n.B != nil && n.B.Type == jsref.NIdent {
+			patternsOf[n.B.Name] = append(patternsOf[n.B.Name], n.A)
+		}
+		if n.Type == jsref.NCall && n.A != nil && n.A.Type == jsref.NIdent && n.A.Name == "__objRest" && len(n.List) == 2 && n.List[0] != nil && n.List[0].Type == jsref.NIdent && n.List[1] != nil && n.List[1].Type == jsref.NArray {
+			rests = append(rests, n)
 		}
 	})
 	var edits []edit
 	var temps []string
-	used := map[int]string{}
-	for _, c := range calls {
-		arg := c.List[0]
-		best := -1
-		for i, k := range keys {
-			if k.name == arg.Name && k.end <= c.Start && (best < 0 || k.start > keys[best].start) {
-				best = i
+	usedKey := map[*jsref.Node]bool{}
+	for _, r := range rests {
+		for _, el := range r.List[1].List {
+			if el == nil || el.Type != jsref.NCall || el.A == nil || el.A.Type != jsref.NIdent || el.A.Name != "__restKey" || len(el.List) != 1 || el.List[0] == nil || el.List[0].Type != jsref.NIdent {
+				continue
 			}
-		}
-		if best < 0 {
-			continue
-		}
-		tmp, ok := used[best]
-		if !ok {
-			tmp = "_rk" + string(rune('0'+len(temps)%10)) + strings.Repeat("x", len(temps)/10)
-			used[best] = tmp
+			arg := el.List[0]
+			// the key it repeats: a computed identifier key of the pattern destructured from the same temporary
+			var key *jsref.Node
+			var pats []*jsref.Node
+			for src, hops := r.List[0].Name, 0; src != "" && hops < 8; src, hops = alias[src], hops+1 {
+				pats = append(pats, patternsOf[src]...)
+			}
+			sort.SliceStable(pats, func(i, j int) bool { return pats[i].Start < pats[j].Start })
+			for _, pat := range pats {
+				if pat.End > r.Start {
+					continue
+				}
+				for _, m := range pat.List {
+					if m != nil && m.Type == jsref.NProperty && m.Has(jsref.FlagComputed) && m.A != nil && m.A.Type == jsref.NIdent && m.A.Name == arg.Name && !usedKey[m.A] && key == nil {
+						key = m.A
+					}
+				}
+			}
+			if key == nil {
+				continue
+			}
+			usedKey[key] = true
+			tmp := "_rk" + string(rune('0'+len(temps)%10)) + strings.Repeat("x", len(temps)/10)
 			temps = append(temps, tmp)
-			edits = append(edits, edit{at: keys[best].start, ins: tmp + " = "})
+			edits = append(edits, edit{at: key.Start, ins: tmp + " = "}, edit{at: arg.Start, del: arg.End - arg.Start, ins: tmp})
 		}
-		edits = append(edits, edit{at: arg.Start, del: arg.End - arg.Start, ins: tmp})
 	}
 	if len(temps) == 0 {
 		return out, 0
@@ -446,20 +459,24 @@ func repairAsyncArrowThis(out string, po *jsref.Program) (string, int) {
 }
 
 // ---- C05-raw-super-outside-method (input rewrite)
-// Signature: `super.x ??= v` / `||=` / `&&=`, or an optional chain link directly on a super property
-// (`super.m?.()`, `super.x?.y`). esbuild prints these with a literal `super` even where it has to lower
+// Signature: `super.x ??= v` / `||=` / `&&=` / `**=`, or an optional chain link directly on a super
+// property (`super.m?.()`, `super.x?.y`). esbuild prints these with a literal `super` even where it has to lower
 // super property accesses (static initialisers moved out of the class, lowered async arrows), which is a
 // syntax error there. Rewrite: `(super.x ?? (super.x = v))`, `(super.m == null ? void 0 : super.m())`.
 func rewriteSuperShortCircuit(code string, p *jsref.Program) (string, int) {
 	var edits []edit
 	jsutil.Walk(p.Body, func(n *jsref.Node) {
 		switch {
-		case n.Type == jsref.NAssign && (n.Name == "??=" || n.Name == "||=" || n.Name == "&&=") && isSuperMember(n.A) && n.B != nil:
+		case n.Type == jsref.NAssign && (n.Name == "??=" || n.Name == "||=" || n.Name == "&&=" || n.Name == "**=") && isSuperMember(n.A) && n.B != nil:
 			t := stripParens(n.A)
 			if t.Type != jsref.NMember {
 				return
 			}
 			T := code[t.Start:t.End]
+			if n.Name == "**=" {
+				edits = append(edits, edit{at: n.Start, del: n.End - n.Start, ins: "(" + T + " = " + T + " ** (" + code[n.B.Start:n.B.End] + "))"})
+				return
+			}
 			edits = append(edits, edit{at: n.Start, del: n.End - n.Start, ins: "(" + T + " " + strings.TrimSuffix(n.Name, "=") + " (" + T + " = " + code[n.B.Start:n.B.End] + "))"})
 		case (n.Type == jsref.NCall || n.Type == jsref.NMember || n.Type == jsref.NIndex) && n.Has(jsref.FlagOptional) && n.A != nil && n.A.Type == jsref.NMember && n.A.A != nil && n.A.A.Type == jsref.NSuper:
 			T := code[n.A.Start:n.A.End]
@@ -602,6 +619,110 @@ func rewriteUseStrict(code string, p *jsref.Program) (string, int) {
 	return "\"use strict\";\n" + code, 1
 }
 
+// ---- C05-object-rest-only-target-evaluated-before-source (output repair)
+// Signature (input): an object assignment pattern that consists of a rest element only, whose target is a
+// member expression: `({ ...o[k()] } = src())`. esbuild emits `o[k()] = __objRest(src(), [])`, which
+// evaluates the operands of the target before the source; native destructuring evaluates the source first.
+// Repair: `(_ro0 = src(), o[k()] = __objRest(_ro0, []))`.
+func restOnlyMemberTarget(p *jsref.Program) bool {
+	found := false
+	jsutil.Walk(p.Body, func(n *jsref.Node) {
+		if n.Type != jsref.NAssign || n.Name != "=" {
+			return
+		}
+		pat := stripParens(n.A)
+		if pat == nil || pat.Type != jsref.NObject || len(pat.List) != 1 || pat.List[0] == nil || pat.List[0].Type != jsref.NSpread {
+			return
+		}
+		if t := stripParens(pat.List[0].A); t != nil && (t.Type == jsref.NMember || t.Type == jsref.NIndex) {
+			found = true
+		}
+	})
+	return found
+}
+
+func repairRestOnlyOrder(out string, po *jsref.Program) (string, int) {
+	if strings.Contains(out, "_ro") {
+		return out, 0
+	}
+	var edits []edit
+	var temps []string
+	jsutil.Walk(po.Body, func(n *jsref.Node) {
+		if n.Type != jsref.NAssign || n.Name != "=" || n.A == nil || (n.A.Type != jsref.NMember && n.A.Type != jsref.NIndex) || n.B == nil {
+			return
+		}
+		call := n.B
+		if call.Type != jsref.NCall || call.A == nil || call.A.Type != jsref.NIdent || call.A.Name != "__objRest" || len(call.List) != 2 || call.List[0] == nil || call.List[0].Type == jsref.NIdent {
+			return
+		}
+		src := call.List[0]
+		tmp := "_ro" + string(rune('0'+len(temps)%10)) + strings.Repeat("x", len(temps)/10)
+		temps = append(temps, tmp)
+		edits = append(edits,
+			edit{at: n.Start, ins: "(" + tmp + " = " + out[src.Start:src.End] + ", "},
+			edit{at: src.Start, del: src.End - src.Start, ins: tmp},
+			edit{at: n.End, ins: ")"})
+	})
+	if len(temps) == 0 {
+		return out, 0
+	}
+	at := 0
+	for _, s := range po.Body.List {
+		if s != nil && s.Type == jsref.NExprStmt && s.Has(jsref.FlagDirective) {
+			at = s.End
+			continue
+		}
+		break
+	}
+	edits = append(edits, edit{at: at, ins: "\nvar " + strings.Join(temps, ", ") + ";\n"})
+	res, ok := applyEdits(out, edits)
+	if !ok {
+		return out, 0
+	}
+	return res, len(temps)
+}
+
+// ---- C05-async-generator-return-restarts-after-await (output repair)
+// Signature (input): an async generator function contains an `await` (or a for-await loop) and the
+// program calls `.return(…)` on something. When return() reaches a lowered async generator that is
+// suspended at a yield and the pending finally blocks (written by the user, or the iterator-closing code
+// of a lowered for-await) await something, the helper __asyncGenerator resumes the generator with
+// `.return(awaited value)` a second time instead of `.next(awaited value)`: the finally block is abandoned
+// and the awaited value becomes the result. Repair: the helper resumes with "next" unless the awaited
+// value comes from a yield* delegation (`v[1]`).
+func asyncGeneratorAwaitAndReturnCall(p *jsref.Program) bool {
+	gen, ret := false, false
+	jsutil.Walk(p.Body, func(n *jsref.Node) {
+		if n.Type == jsref.NFunctionDecl || n.Type == jsref.NFunctionExpr {
+			if n.Has(jsref.FlagAsync) && n.Has(jsref.FlagGenerator) {
+				jsutil.Walk(n.B, func(m *jsref.Node) {
+					if m.Type == jsref.NAwait || (m.Type == jsref.NForOf && m.Has(jsref.FlagAwait)) {
+						gen = true
+					}
+				})
+			}
+		}
+		if n.Type == jsref.NCall && n.A != nil && n.A.Type == jsref.NMember && n.A.Name == "return" {
+			ret = true
+		}
+	})
+	return gen && ret
+}
+
+func repairAsyncGeneratorReturn(out string, po *jsref.Program) (string, int) {
+	n := 0
+	for _, r := range [][2]string{
+		{`k === "return" ? k : "next"`, `k === "return" && v[1] ? k : "next"`},
+		{`k==="return"?k:"next"`, `k==="return"&&v[1]?k:"next"`},
+	} {
+		if c := strings.Count(out, r[0]); c > 0 {
+			out = strings.Replace(out, r[0], r[1], -1)
+			n += c
+		}
+	}
+	return out, n
+}
+
 type outputRepair struct {
 	id        string
 	signature func(pi *jsref.Program) bool
@@ -618,6 +739,8 @@ var outputRepairs = []outputRepair{
 	{"C05-static-initialiser-super-call-receiver", superCallInStaticInit, repairSuperCallReceiver, "__superGet("},
 	{"C05-object-rest-identifier-key-reread", restWithIdentKey, repairRestKeyReread, "__restKey("},
 	{"C05-lowered-async-arrow-loses-this-of-lowered-super", superInAsyncArrow, repairAsyncArrowThis, "__async(null"},
+	{"C05-object-rest-only-target-evaluated-before-source", restOnlyMemberTarget, repairRestOnlyOrder, "__objRest("},
+	{"C05-async-generator-return-restarts-after-await", asyncGeneratorAwaitAndReturnCall, repairAsyncGeneratorReturn, "__asyncGenerator"},
 }
 
 var inputRewrites = []inputRewrite{
